@@ -52,35 +52,41 @@ pub fn run(cfg: &Cfg) -> Option<Report> {
     }
 }
 
+/// Judges one recorded input with the monitor of `prop`, accumulating into `ctx`.
+/// Returns false when the monitor cannot rebuild a case from this input.
+pub fn replay_into(prop: &str, ctx: &mut crate::monitor::Ctx, input: &Value, release: bool) -> bool {
+    match prop {
+        "C01" => c01::replay(ctx, input),
+        "C02" => c02::replay(ctx, input),
+        "C03" => c03::replay(ctx, input),
+        "C04" => c04::replay(ctx, input),
+        "C05" => c05::replay(ctx, input),
+        "C06" => c06::replay(ctx, input),
+        "C07" => c07::replay(ctx, input),
+        "C08" => c08::replay(ctx, input),
+        "C09" => c09::replay(ctx, input),
+        "C10" => c10::replay(ctx, input),
+        "C11" => c11::replay(ctx, input),
+        "C12" => c12::replay(ctx, input),
+        "C13" => c13::replay(ctx, input),
+        "C14" => c14::replay(ctx, input),
+        "C15" => c15::replay(ctx, input),
+        "C16" => c16::replay(ctx, input),
+        "C17" => c17::replay(ctx, input),
+        "C18" => c18::replay(ctx, input, release),
+        "C19" => c19::replay(ctx, input),
+        "C20" => c20::replay(ctx, input),
+        _ => false,
+    }
+}
+
 /// Re-executes the single case stored in a replay file; prints VIOLATION / KNOWN-FINDING /
 /// NOT-REPRODUCED and returns the exit code.
 pub fn replay(cfg: &Cfg, v: &Value, path: &str) -> i32 {
     let prop = cfg.prop.as_str();
     let input = v.get("input").cloned().unwrap_or(Value::Null);
     let mut ctx = crate::monitor::Ctx::new();
-    let handled = match prop {
-        "C01" => c01::replay(&mut ctx, &input),
-        "C02" => c02::replay(&mut ctx, &input),
-        "C03" => c03::replay(&mut ctx, &input),
-        "C04" => c04::replay(&mut ctx, &input),
-        "C05" => c05::replay(&mut ctx, &input),
-        "C06" => c06::replay(&mut ctx, &input),
-        "C07" => c07::replay(&mut ctx, &input),
-        "C08" => c08::replay(&mut ctx, &input),
-        "C09" => c09::replay(&mut ctx, &input),
-        "C10" => c10::replay(&mut ctx, &input),
-        "C11" => c11::replay(&mut ctx, &input),
-        "C12" => c12::replay(&mut ctx, &input),
-        "C13" => c13::replay(&mut ctx, &input),
-        "C14" => c14::replay(&mut ctx, &input),
-        "C15" => c15::replay(&mut ctx, &input),
-        "C16" => c16::replay(&mut ctx, &input),
-        "C17" => c17::replay(&mut ctx, &input),
-        "C18" => c18::replay(&mut ctx, &input, cfg.lane == "release"),
-        "C19" => c19::replay(&mut ctx, &input),
-        "C20" => c20::replay(&mut ctx, &input),
-        _ => false,
-    };
+    let handled = replay_into(prop, &mut ctx, &input, cfg.lane == "release");
     if !handled {
         println!("INCONCLUSIVE property={} reason=replay of this case kind is not supported; the file documents the witness", prop);
         return 2;
